@@ -1715,5 +1715,894 @@ theorem focusGained_requests (fx : Fixes) : ∀ (fuel : Nat) (t : Tree) (win : N
     have hs4 := gainSelfIn_pv h4
     rw [hs4.1]; exact hr3
 
+
+/-! ### preservation of the store invariant -/
+
+/-- The fields of *other* windows that `winOk` looks up. -/
+def linkShape (w : Win) : Option Nat × List Nat × Bool × Bool := (w.parent, w.children, w.isVisible, w.freed)
+
+/-- Two stores whose windows agree on the looked-up fields. -/
+def SameLinks (t t' : Tree) : Prop := ∀ i : Nat, (t'.wins[i]?).map linkShape = (t.wins[i]?).map linkShape
+
+theorem sameLinks_lookup {t t' : Tree} (h : SameLinks t t') (i : Nat) :
+    (match t'.wins[i]? with | some w => some (w.parent, w.children, w.isVisible, w.freed) | none => none) =
+    (match t.wins[i]? with | some w => some (w.parent, w.children, w.isVisible, w.freed) | none => none) := by
+  have := h i
+  cases h1 : t.wins[i]? <;> cases h2 : t'.wins[i]? <;> simp [h1, h2, linkShape] at this ⊢
+  exact this
+
+/-- `winOk` of the same window record in two stores with the same links. -/
+theorem winOk_congr {t t' : Tree} (h : SameLinks t t') (j : Nat) (x : Win) : winOk t' j x = winOk t j x := by
+  have hl : ∀ i : Nat, ∀ (f : Option Nat → List Nat → Bool → Bool → Bool),
+      (match t'.wins[i]? with | some w => f w.parent w.children w.isVisible w.freed | none => false) =
+      (match t.wins[i]? with | some w => f w.parent w.children w.isVisible w.freed | none => false) := by
+    intro i f
+    have := sameLinks_lookup h i
+    cases h1 : t.wins[i]? <;> cases h2 : t'.wins[i]? <;> simp [h1, h2] at this ⊢
+    obtain ⟨a, b, c, d⟩ := this
+    rw [a, b, c, d]
+  unfold winOk
+  congr 1
+  · congr 1
+    · cases x.parent with
+      | none => rfl
+      | some p =>
+        simp only []
+        congr 1
+        exact hl p (fun _ ch _ fr => !fr && ch.contains j)
+    · congr 1
+      funext c
+      exact hl c (fun par _ _ fr => !fr && par == some j)
+  · cases x.focusedChild with
+    | none => rfl
+    | some c => exact hl c (fun par _ vis fr => !fr && par == some j && vis)
+
+/-- Assembling `wfB` from its parts. -/
+theorem wfB_of {t : Tree} (hroot : ∃ r, t.wins[0]? = some r ∧ r.isRoot = true ∧ r.freed = false ∧ r.parent = none)
+    (hwin : ∀ (i : Nat) (w : Win), t.wins[i]? = some w → w.freed = false → winOk t i w = true) : wfB t = true := by
+  unfold wfB
+  obtain ⟨r, hr, h1, h2, h3⟩ := hroot
+  simp only [Bool.and_eq_true, List.all_eq_true, List.mem_range]
+  refine ⟨by rw [hr]; simp [h1, h2, h3], fun i _ => ?_⟩
+  cases hw : t.wins[i]? with
+  | none => rfl
+  | some w =>
+    by_cases hf : w.freed = true
+    · simp [hf]
+    · simp only [Bool.or_eq_true]; right; exact hwin i w hw (by simpa using hf)
+
+theorem wf_winOk {t : Tree} (h : wfB t = true) {i : Nat} {w : Win} (hw : t.wins[i]? = some w) (hf : w.freed = false) :
+    winOk t i w = true := wf_win h ⟨hw, hf⟩
+
+theorem wf_root' {t : Tree} (h : wfB t = true) :
+    ∃ r, t.wins[0]? = some r ∧ r.isRoot = true ∧ r.freed = false ∧ r.parent = none := by
+  obtain ⟨r, hr, h1, h2⟩ := wf_root h
+  exact ⟨r, hr.1, h1, hr.2, h2⟩
+
+theorem set_lookup {t : Tree} {i j : Nat} {w w' : Win} (hw : t.wins[i]? = some w) :
+    (WinTree.set t i w').wins[j]? = if i = j then some w' else t.wins[j]? := by
+  have hi : i < t.wins.size := (Array.getElem?_eq_some_iff.mp hw).1
+  simp only [WinTree.set, Array.getElem?_setIfInBounds, hi, if_true]
+
+theorem sameLinks_set {t : Tree} {i : Nat} {w w' : Win} (hw : t.wins[i]? = some w) (hs : linkShape w' = linkShape w) :
+    SameLinks t (WinTree.set t i w') := by
+  intro j
+  rw [set_lookup hw]
+  by_cases hij : i = j
+  · subst hij; simp [hw, hs]
+  · simp [hij]
+
+/-- Rewriting a window without touching the fields `winOk` reads (its cursor record, `is_focused`, the notification
+    switch, …) preserves the invariant. -/
+theorem wfB_set_same {t : Tree} (h : wfB t = true) {i : Nat} {w w' : Win} (hw : t.wins[i]? = some w)
+    (hs : linkShape w' = linkShape w) (hfc : w'.focusedChild = w.focusedChild) (hr : w'.isRoot = w.isRoot) :
+    wfB (WinTree.set t i w') = true := by
+  have hl := sameLinks_set hw hs
+  have hsh : w'.parent = w.parent ∧ w'.children = w.children ∧ w'.isVisible = w.isVisible ∧ w'.freed = w.freed := by
+    unfold linkShape at hs; simpa using hs
+  apply wfB_of
+  · obtain ⟨r, hr0, h1, h2, h3⟩ := wf_root' h
+    rw [set_lookup hw]
+    by_cases hi : i = 0
+    · subst hi
+      rw [hr0] at hw; cases hw
+      exact ⟨w', by simp, hr.trans h1, hsh.2.2.2.trans h2, hsh.1.trans h3⟩
+    · exact ⟨r, by simp [hi, hr0], h1, h2, h3⟩
+  · intro j x hx hf
+    rw [set_lookup hw] at hx
+    rw [winOk_congr hl]
+    by_cases hij : i = j
+    · subst hij
+      simp at hx; subst hx
+      have := wf_winOk h hw (hsh.2.2.2 ▸ hf)
+      unfold winOk at this ⊢
+      rw [hsh.1, hsh.2.1, hfc, hr]; exact this
+    · simp [hij] at hx
+      exact wf_winOk h hx hf
+
+theorem wfB_root_only {t : Tree} (h : wfB t = true) (r : Root) : wfB { t with root := r } = true := h
+
+
+/-- Writing `is_focused` and a `focused_child` link that goes to a live, visible child preserves the invariant. -/
+theorem wfB_set_fc {t : Tree} (h : wfB t = true) {i : Nat} {w : Win} (hw : t.wins[i]? = some w) (b : Bool)
+    (child : Option Nat)
+    (hc : ∀ c, child = some c → ∃ cw, t.wins[c]? = some cw ∧ cw.freed = false ∧ cw.parent = some i ∧ cw.isVisible = true) :
+    wfB (WinTree.set t i { w with isFocused := b, focusedChild := child }) = true := by
+  have hl : SameLinks t (WinTree.set t i { w with isFocused := b, focusedChild := child }) := sameLinks_set hw rfl
+  apply wfB_of
+  · obtain ⟨r, hr0, h1, h2, h3⟩ := wf_root' h
+    rw [set_lookup hw]
+    by_cases hi : i = 0
+    · subst hi
+      rw [hr0] at hw; cases hw
+      exact ⟨{ w with isFocused := b, focusedChild := child }, by simp, h1, h2, h3⟩
+    · exact ⟨r, by simp [hi, hr0], h1, h2, h3⟩
+  · intro j x hx hf
+    rw [set_lookup hw] at hx
+    rw [winOk_congr hl]
+    by_cases hij : i = j
+    · subst hij
+      simp at hx; subst hx
+      have := wf_winOk h hw hf
+      unfold winOk at this ⊢
+      simp only [Bool.and_eq_true] at this ⊢
+      refine ⟨this.1, ?_⟩
+      cases child with
+      | none => rfl
+      | some c =>
+        obtain ⟨cw, hcw, h1, h2, h3⟩ := hc c rfl
+        simp [hcw, h1, h2, h3]
+    · simp [hij] at hx
+      exact wf_winOk h hx hf
+
+theorem focusLost_wf : ∀ (fuel : Nat) (t : Tree) (win : Nat) (r : Tree × List Event),
+    wfB t = true → focusLost fuel t win = .ok r → wfB r.1 = true := by
+  intro fuel
+  induction fuel with
+  | zero => intro t win r _ h; simp [focusLost] at h
+  | succ n ih =>
+    intro t win r hwf h
+    simp only [focusLost, bind_ok] at h
+    obtain ⟨r1, h1, h2⟩ := h
+    have hwf1 : wfB r1.1 = true := by
+      simp only [focusLostChild, bind_ok] at h1
+      obtain ⟨w, _, h1⟩ := h1
+      split at h1
+      · simp only [pure_ok] at h1; subst h1; exact hwf
+      · simp only [bind_ok, pure_ok] at h1
+        obtain ⟨r0, h0, w', _, h1⟩ := h1
+        subst h1
+        exact ih _ _ r0 hwf h0
+    simp only [focusLostSelf, bind_ok] at h2
+    obtain ⟨w, hg, h2⟩ := h2
+    split at h2
+    · simp only [pure_ok] at h2; subst h2
+      exact wfB_set_same hwf1 (get_ok.mp hg).1 rfl rfl rfl
+    · simp only [pure_ok] at h2; subst h2; exact hwf1
+
+/-- The window part of `SamePV`, through a whole `_focus_gained` (which may write the root record). -/
+theorem focusGained_pvw (fx : Fixes) : ∀ (fuel : Nat) (t : Tree) (win : Nat) (child : Option Nat)
+    (r : Tree × List Event), focusGained fx fuel t win child = .ok r →
+    ∀ i : Nat, (r.1.wins[i]?).map pv = (t.wins[i]?).map pv := by
+  intro fuel
+  induction fuel with
+  | zero => intro t win child r h; simp [focusGained] at h
+  | succ n ih =>
+    intro t win child r h i
+    simp only [focusGained, bind_ok] at h
+    obtain ⟨r1, h1, r2, h2, r3, h3, h4⟩ := h
+    have hs2 : SamePV t r2.1 := samePV_trans (gainLoseOld_pv h1) (gainSelfOut_pv h2)
+    have hs3 : (r3.1.wins[i]?).map pv = (r2.1.wins[i]?).map pv := by
+      simp only [gainClimb, bind_ok] at h3
+      obtain ⟨w, _, h3⟩ := h3
+      split at h3
+      · split at h3
+        · exact ih _ _ _ _ h3 i
+        · simp only [pure_ok] at h3; subst h3; rfl
+      · simp only [bind_ok, pure_ok] at h3
+        obtain ⟨t', ht', h3⟩ := h3
+        subst h3
+        unfold requestRestoreOf at ht'
+        simp only [bind_ok, pure_ok] at ht'
+        obtain ⟨_, _, ht'⟩ := ht'
+        subst ht'; rfl
+    rw [(gainSelfIn_pv h4).2 i, hs3, hs2.2 i]
+
+theorem pv_lookup {t t' : Tree} (h : ∀ i : Nat, (t'.wins[i]?).map pv = (t.wins[i]?).map pv) {c i : Nat}
+    (hc : ∃ cw, t.wins[c]? = some cw ∧ cw.freed = false ∧ cw.parent = some i ∧ cw.isVisible = true) :
+    ∃ cw, t'.wins[c]? = some cw ∧ cw.freed = false ∧ cw.parent = some i ∧ cw.isVisible = true := by
+  obtain ⟨cw, h1, h2, h3, h4⟩ := hc
+  have := h c
+  rw [h1] at this
+  cases h' : t'.wins[c]? with
+  | none => rw [h'] at this; simp at this
+  | some cw' =>
+    rw [h'] at this; simp [pv] at this
+    exact ⟨cw', rfl, this.2.2.trans h2, this.1.trans h3, this.2.1.trans h4⟩
+
+/-- `_focus_gained` preserves the store invariant (in particular `chain_visible`: it links only visible windows). -/
+theorem focusGained_wf (fx : Fixes) : ∀ (fuel : Nat) (t : Tree) (win : Nat) (child : Option Nat)
+    (r : Tree × List Event), wfB t = true → focusGained fx fuel t win child = .ok r →
+    (∀ c, child = some c → ∃ cw, t.wins[c]? = some cw ∧ cw.freed = false ∧ cw.parent = some win ∧ cw.isVisible = true) →
+    wfB r.1 = true := by
+  intro fuel
+  induction fuel with
+  | zero => intro t win child r _ h; simp [focusGained] at h
+  | succ n ih =>
+    intro t win child r hwf h hc
+    have hpvw := focusGained_pvw fx _ _ _ _ _ h
+    simp only [focusGained, bind_ok] at h
+    obtain ⟨r1, h1, r2, h2, r3, h3, h4⟩ := h
+    -- step 1: the old branch loses the focus
+    have hwf1 : wfB r1.1 = true := by
+      simp only [gainLoseOld, bind_ok] at h1
+      obtain ⟨w, _, h1⟩ := h1
+      split at h1
+      · simp only [pure_ok] at h1; subst h1; exact hwf
+      · split at h1
+        · simp only [bind_ok, pure_ok] at h1
+          obtain ⟨r0, h0, w', _, h1⟩ := h1
+          subst h1
+          exact focusLost_wf _ _ _ r0 hwf h0
+        · simp only [pure_ok] at h1; subst h1; exact hwf
+    -- step 2: (repaired) the window itself is told OUT
+    have hwf2 : wfB r2.1 = true := by
+      simp only [gainSelfOut, bind_ok] at h2
+      obtain ⟨w, hg, h2⟩ := h2
+      split at h2
+      · simp only [pure_ok] at h2; subst h2
+        exact wfB_set_same hwf1 (get_ok.mp hg).1 rfl rfl rfl
+      · simp only [pure_ok] at h2; subst h2; exact hwf1
+    -- step 3: the climb
+    have hwf3 : wfB r3.1 = true := by
+      simp only [gainClimb, bind_ok] at h3
+      obtain ⟨w, hg, h3⟩ := h3
+      have hw := get_ok.mp hg
+      split at h3
+      · next p hp =>
+        split at h3
+        · next hv =>
+          exact ih _ _ _ _ hwf2 h3 (fun c hc' => by cases hc'; exact ⟨w, hw.1, hw.2, hp, hv⟩)
+        · simp only [pure_ok] at h3; subst h3; exact hwf2
+      · simp only [bind_ok, pure_ok] at h3
+        obtain ⟨t', ht', h3⟩ := h3
+        subst h3
+        unfold requestRestoreOf at ht'
+        simp only [bind_ok, pure_ok] at ht'
+        obtain ⟨_, _, ht'⟩ := ht'
+        subst ht'
+        exact wfB_root_only hwf2 _
+    -- step 4: the link
+    have hpv3 : ∀ i : Nat, (r3.1.wins[i]?).map pv = (t.wins[i]?).map pv := by
+      intro i
+      rw [← hpvw i, (gainSelfIn_pv h4).2 i]
+    simp only [gainSelfIn, bind_ok] at h4
+    obtain ⟨w, hg, h4⟩ := h4
+    split at h4
+    · simp only [pure_ok] at h4; subst h4
+      exact wfB_set_fc hwf3 (get_ok.mp hg).1 true none (fun c hc' => by cases hc')
+    · next c =>
+      simp only [pure_ok] at h4; subst h4
+      have := wfB_set_fc hwf3 (get_ok.mp hg).1 w.isFocused (some c)
+        (fun c' hc' => by cases hc'; exact pv_lookup hpv3 (hc c rfl))
+      exact this
+
+
+theorem wfB_wins {t t' : Tree} (h : t'.wins = t.wins) : wfB t' = wfB t := by
+  cases t; cases t'; simp only at h; subst h; rfl
+
+/-- Two stores that agree on the looked-up fields, except that window `v` may have changed its visibility. -/
+def SameLinksBut (v : Nat) (t t' : Tree) : Prop :=
+  (∀ i : Nat, i ≠ v → (t'.wins[i]?).map linkShape = (t.wins[i]?).map linkShape) ∧
+  (t'.wins[v]?).map (fun w => (w.parent, w.children, w.freed)) = (t.wins[v]?).map (fun w => (w.parent, w.children, w.freed))
+
+/-- `winOk` of a record whose `focused_child` is not `v`, in two stores that differ in the visibility of `v` only. -/
+theorem winOk_congr_vis {t t' : Tree} {v : Nat} (h : SameLinksBut v t t') (j : Nat) (x : Win)
+    (hx : x.focusedChild ≠ some v) : winOk t' j x = winOk t j x := by
+  have hl3 : ∀ i : Nat, ∀ (f : Option Nat → List Nat → Bool → Bool),
+      (match t'.wins[i]? with | some w => f w.parent w.children w.freed | none => false) =
+      (match t.wins[i]? with | some w => f w.parent w.children w.freed | none => false) := by
+    intro i f
+    by_cases hi : i = v
+    · subst hi
+      have := h.2
+      cases h1 : t.wins[i]? <;> cases h2 : t'.wins[i]? <;> simp [h1, h2] at this ⊢
+      obtain ⟨a, b, c⟩ := this
+      rw [a, b, c]
+    · have := h.1 i hi
+      cases h1 : t.wins[i]? <;> cases h2 : t'.wins[i]? <;> simp [h1, h2, linkShape] at this ⊢
+      obtain ⟨a, b, _, d⟩ := this
+      rw [a, b, d]
+  have hl4 : ∀ i : Nat, i ≠ v → ∀ (f : Option Nat → List Nat → Bool → Bool → Bool),
+      (match t'.wins[i]? with | some w => f w.parent w.children w.isVisible w.freed | none => false) =
+      (match t.wins[i]? with | some w => f w.parent w.children w.isVisible w.freed | none => false) := by
+    intro i hi f
+    have := h.1 i hi
+    cases h1 : t.wins[i]? <;> cases h2 : t'.wins[i]? <;> simp [h1, h2, linkShape] at this ⊢
+    obtain ⟨a, b, c, d⟩ := this
+    rw [a, b, c, d]
+  unfold winOk
+  congr 1
+  · congr 1
+    · cases x.parent with
+      | none => rfl
+      | some p =>
+        simp only []
+        congr 1
+        exact hl3 p (fun _ ch fr => !fr && ch.contains j)
+    · congr 1
+      funext c
+      exact hl3 c (fun par _ fr => !fr && par == some j)
+  · cases hfc : x.focusedChild with
+    | none => rfl
+    | some c =>
+      have hcv : c ≠ v := fun hc => hx (by rw [hfc, hc])
+      exact hl4 c hcv (fun par _ vis fr => !fr && par == some j && vis)
+
+theorem sameLinksBut_set {t : Tree} {v : Nat} {w : Win} (hw : t.wins[v]? = some w) (b : Bool) :
+    SameLinksBut v t (WinTree.set t v { w with isVisible := b }) := by
+  refine ⟨fun i hi => ?_, ?_⟩
+  · rw [set_lookup hw]
+    have : ¬ v = i := fun h => hi h.symm
+    simp [this]
+  · rw [set_lookup hw]; simp [hw]
+
+/-- No window other than the parent can have `v` as its `focused_child`. -/
+theorem fc_only_parent {t : Tree} (h : wfB t = true) {j v : Nat} {x vw : Win} (hx : Live t j x)
+    (hfc : x.focusedChild = some v) (hv : t.wins[v]? = some vw) : vw.parent = some j ∧ vw.isVisible = true := by
+  obtain ⟨cw, hcw, h1, h2⟩ := wf_focused h hx hfc
+  rw [hcw.1] at hv; cases hv
+  exact ⟨h1, h2⟩
+
+theorem winOk_drop_fc {t : Tree} {j : Nat} {x : Win} (h : winOk t j x = true) :
+    winOk t j { x with focusedChild := none } = true := by
+  unfold winOk at h ⊢
+  simp only [Bool.and_eq_true] at h ⊢
+  exact ⟨h.1, trivial⟩
+
+theorem winOk_vis_irrelevant {t : Tree} {j : Nat} {x : Win} (b : Bool) :
+    winOk t j { x with isVisible := b } = winOk t j x := by
+  unfold winOk; rfl
+
+/-- Facts about the store after `win->is_visible = false`. -/
+theorem hide_facts {t : Tree} (h : wfB t = true) {win : Nat} {w : Win} (hw : Live t win w) (t1 : Tree)
+    (ht1 : t1 = WinTree.set t win { w with isVisible := false }) :
+    (∃ r, t1.wins[0]? = some r ∧ r.isRoot = true ∧ r.freed = false ∧ r.parent = none) ∧
+    (∀ (j : Nat) (x : Win), x.focusedChild ≠ some win → winOk t j x = true → winOk t1 j x = true) ∧
+    (∀ (j : Nat) (x : Win), t1.wins[j]? = some x → x.freed = false →
+      (∀ pw, t.wins[j]? = some pw → w.parent = some j → pw.focusedChild ≠ some win) → winOk t1 j x = true) ∧
+    (∀ j : Nat, win ≠ j → t1.wins[j]? = t.wins[j]?) := by
+  subst ht1
+  have hb : SameLinksBut win t (WinTree.set t win { w with isVisible := false }) := sameLinksBut_set hw.1 false
+  have hfcw : w.focusedChild ≠ some win := by
+    intro hc
+    obtain ⟨cw, hcw, hp, _⟩ := wf_focused h hw hc
+    have := (wf_parent h hcw hp).1; omega
+  have hgood : ∀ (j : Nat) (x : Win), x.focusedChild ≠ some win → winOk t j x = true →
+      winOk (WinTree.set t win { w with isVisible := false }) j x = true := by
+    intro j x hne hok
+    rw [winOk_congr_vis hb j x hne]; exact hok
+  refine ⟨?_, hgood, ?_, ?_⟩
+  · obtain ⟨r, hr0, h1, h2, h3⟩ := wf_root' h
+    rw [set_lookup hw.1]
+    by_cases hi : win = 0
+    · subst hi
+      have := hw.1; rw [hr0] at this; cases this
+      exact ⟨{ w with isVisible := false }, by simp, h1, h2, h3⟩
+    · exact ⟨r, by simp [hi, hr0], h1, h2, h3⟩
+  · intro j x hx hf hpar
+    rw [set_lookup hw.1] at hx
+    by_cases hj : win = j
+    · subst hj
+      simp at hx; subst hx
+      apply hgood _ _ hfcw
+      rw [winOk_vis_irrelevant]; exact wf_winOk h hw.1 hw.2
+    · simp [hj] at hx
+      apply hgood _ _ _ (wf_winOk h hx hf)
+      intro hc
+      have := (fc_only_parent h ⟨hx, hf⟩ hc hw.1).1
+      exact hpar x hx this hc
+  · intro j hj
+    rw [set_lookup hw.1]; simp [hj]
+
+/-- The window part of `tickit_window_hide` (make invisible; unlink from the parent's focus chain) preserves the
+    invariant. -/
+theorem hide_core_wf {t : Tree} (h : wfB t = true) {win : Nat} {w : Win} (hw : Live t win w) (t1 : Tree)
+    (ht1 : t1 = WinTree.set t win { w with isVisible := false }) :
+    (match w.parent with
+     | none => wfB t1 = true
+     | some p => ∀ pw, t1.wins[p]? = some pw →
+        wfB (if pw.focusedChild = some win then WinTree.set t1 p { pw with focusedChild := none } else t1) = true) := by
+  obtain ⟨hroot1, hgood, hrec, hlook⟩ := hide_facts h hw t1 ht1
+  cases hp : w.parent with
+  | none =>
+    simp only []
+    apply wfB_of hroot1
+    intro j x hx hf
+    exact hrec j x hx hf (fun pw _ hc => by rw [hp] at hc; cases hc)
+  | some p =>
+    simp only []
+    intro pw hpw
+    have hpne : win ≠ p := by
+      intro hc; subst hc
+      have := (wf_parent h hw hp).1; omega
+    have hpw0 : t.wins[p]? = some pw := by rw [hlook p hpne] at hpw; exact hpw
+    by_cases hfc : pw.focusedChild = some win
+    · simp only [hfc, if_true]
+      have hl : SameLinks t1 (WinTree.set t1 p { pw with focusedChild := none }) := sameLinks_set hpw rfl
+      apply wfB_of
+      · obtain ⟨r, hr0, h1, h2, h3⟩ := hroot1
+        rw [set_lookup hpw]
+        by_cases hi : p = 0
+        · subst hi
+          rw [hr0] at hpw; cases hpw
+          exact ⟨{ pw with focusedChild := none }, by simp, h1, h2, h3⟩
+        · exact ⟨r, by simp [hi, hr0], h1, h2, h3⟩
+      · intro j x hx hf
+        rw [set_lookup hpw] at hx
+        rw [winOk_congr hl]
+        by_cases hj : p = j
+        · subst hj
+          simp at hx; subst hx
+          apply hgood _ _ (by simp)
+          exact winOk_drop_fc (wf_winOk h hpw0 hf)
+        · simp [hj] at hx
+          exact hrec j x hx hf (fun _ _ hc => by rw [hp] at hc; cases hc; exact absurd rfl hj)
+    · simp only [hfc, if_false]
+      apply wfB_of hroot1
+      intro j x hx hf
+      exact hrec j x hx hf (fun pw' hpw' hc => by
+        rw [hp] at hc; cases hc
+        rw [hpw0] at hpw'; cases hpw'; exact hfc)
+
+
+/-- `tickit_window_hide` preserves the store invariant. -/
+theorem hide_wf {t t' : Tree} {fuel win : Nat} (h : wfB t = true) (hh : WinTree.hide t fuel win = .ok t') :
+    wfB t' = true := by
+  unfold WinTree.hide at hh
+  simp only [bind_ok] at hh
+  obtain ⟨t1, hm, w1, hg1, hh⟩ := hh
+  unfold WinTree.modify at hm
+  simp only [bind_ok, pure_ok] at hm
+  obtain ⟨w, hg, ht1⟩ := hm
+  have hw := get_ok.mp hg
+  have hcore := hide_core_wf h hw t1 ht1.symm
+  have hw1 : w1 = { w with isVisible := false } := by
+    rw [← ht1, get_set_self hw.1 (by exact hw.2)] at hg1
+    cases hg1; rfl
+  have hpar : w1.parent = w.parent := by rw [hw1]
+  rw [hpar] at hh
+  cases hp : w.parent with
+  | none =>
+    rw [hp] at hh hcore
+    simp only [pure_ok] at hh
+    subst hh; exact hcore
+  | some p =>
+    rw [hp] at hh hcore
+    simp only [bind_ok] at hh hcore
+    obtain ⟨pw, hgp, hh⟩ := hh
+    have := hcore pw (get_ok.mp hgp).1
+    obtain ⟨hwins, _, _⟩ := expose_frame _ _ _ _ _ hh
+    rw [wfB_wins hwins]; exact this
+
+theorem requestRestoreAbove_wins (t : Tree) (win : Nat) : (requestRestoreAbove t win).wins = t.wins := by
+  unfold requestRestoreAbove
+  split <;> rfl
+
+theorem chainRestoreAfter_wins (fx : Fixes) (t t' : Tree) (p : Option Nat) : (chainRestoreAfter fx t t' p).wins = t'.wins := by
+  unfold chainRestoreAfter
+  split
+  · rfl
+  · split
+    · split
+      · exact requestRestoreAbove_wins _ _
+      · rfl
+    · rfl
+
+/-- `tickit_window_hide` (with or without the repairs) preserves the store invariant. -/
+theorem hideWin_wf {fx : Fixes} {t t' : Tree} {win : Nat} (h : wfB t = true) (hh : hideWin fx t win = .ok t') :
+    wfB t' = true := by
+  unfold hideWin at hh
+  simp only [bind_ok] at hh
+  obtain ⟨w, _, t1, h1, hh⟩ := hh
+  have hwf1 := hide_wf h h1
+  split at hh
+  · simp only [pure_ok] at hh; subst hh; exact hwf1
+  · simp only [pure_ok] at hh; subst hh
+    rw [wfB_wins (chainRestoreAfter_wins _ _ _ _)]; exact hwf1
+
+
+/-- Making a window visible preserves the invariant. -/
+theorem show_core_wf {t : Tree} (h : wfB t = true) {win : Nat} {w : Win} (hw : Live t win w) :
+    wfB (WinTree.set t win { w with isVisible := true }) = true := by
+  by_cases hv : w.isVisible = true
+  · exact wfB_set_same h hw.1 (by simp [linkShape, hv]) rfl rfl
+  · have hb : SameLinksBut win t (WinTree.set t win { w with isVisible := true }) := sameLinksBut_set hw.1 true
+    have hnone : ∀ (j : Nat) (x : Win), t.wins[j]? = some x → x.freed = false → x.focusedChild ≠ some win := by
+      intro j x hx hf hc
+      exact hv (fc_only_parent h ⟨hx, hf⟩ hc hw.1).2
+    apply wfB_of
+    · obtain ⟨r, hr0, h1, h2, h3⟩ := wf_root' h
+      rw [set_lookup hw.1]
+      by_cases hi : win = 0
+      · subst hi
+        have := hw.1; rw [hr0] at this; cases this
+        exact ⟨{ w with isVisible := true }, by simp, h1, h2, h3⟩
+      · exact ⟨r, by simp [hi, hr0], h1, h2, h3⟩
+    · intro j x hx hf
+      rw [set_lookup hw.1] at hx
+      by_cases hj : win = j
+      · subst hj
+        simp at hx; subst hx
+        rw [winOk_congr_vis hb win { w with isVisible := true } (hnone win w hw.1 hw.2), winOk_vis_irrelevant]
+        exact wf_winOk h hw.1 hw.2
+      · simp [hj] at hx
+        rw [winOk_congr_vis hb _ _ (hnone j x hx hf)]
+        exact wf_winOk h hx hf
+
+/-- `tickit_window_show` preserves the store invariant. -/
+theorem show_wf {t t' : Tree} {fuel win : Nat} (h : wfB t = true) (hh : WinTree.show t fuel win = .ok t') :
+    wfB t' = true := by
+  unfold WinTree.show at hh
+  simp only [bind_ok] at hh
+  obtain ⟨t1, hm, w1, hg1, hh⟩ := hh
+  unfold WinTree.modify at hm
+  simp only [bind_ok, pure_ok] at hm
+  obtain ⟨w, hg, ht1⟩ := hm
+  have hw := get_ok.mp hg
+  have hwf1 : wfB t1 = true := by rw [← ht1]; exact show_core_wf h hw
+  have hw1 := get_ok.mp hg1
+  have hw1eq : w1 = { w with isVisible := true } := by
+    rw [← ht1, get_set_self hw.1 (by exact hw.2)] at hg1
+    cases hg1; rfl
+  have hv1 : w1.isVisible = true := by rw [hw1eq]
+  split at hh
+  · next p hp =>
+    simp only [bind_ok] at hh
+    obtain ⟨pw, hgp, hh⟩ := hh
+    split at hh
+    · simp only [bind_ok, pure_ok] at hh
+      obtain ⟨t2, ht2, hh⟩ := hh
+      subst ht2
+      obtain ⟨hwins, _, _⟩ := expose_frame _ _ _ _ _ hh
+      rw [wfB_wins hwins]
+      exact wfB_set_fc hwf1 (get_ok.mp hgp).1 pw.isFocused (some win)
+        (fun c hc => by cases hc; exact ⟨w1, hw1.1, hw1.2, hp, hv1⟩)
+    · simp only [bind_ok, pure_ok] at hh
+      obtain ⟨t2, ht2, hh⟩ := hh
+      subst ht2
+      obtain ⟨hwins, _, _⟩ := expose_frame _ _ _ _ _ hh
+      rw [wfB_wins hwins]; exact hwf1
+  · simp only [bind_ok, pure_ok] at hh
+    obtain ⟨t2, ht2, hh⟩ := hh
+    subst ht2
+    obtain ⟨hwins, _, _⟩ := expose_frame _ _ _ _ _ hh
+    rw [wfB_wins hwins]; exact hwf1
+
+theorem showWin_wf {fx : Fixes} {t t' : Tree} {win : Nat} (h : wfB t = true) (hh : showWin fx t win = .ok t') :
+    wfB t' = true := by
+  unfold showWin at hh
+  simp only [bind_ok, pure_ok] at hh
+  obtain ⟨w, _, t1, h1, hh⟩ := hh
+  subst hh
+  rw [wfB_wins (chainRestoreAfter_wins _ _ _ _)]; exact show_wf h h1
+
+/-- The cursor setters, the notification switch and `take_focus` preserve the store invariant. -/
+theorem restoreIfFocused_wf {t t' : Tree} {win : Nat} (h : wfB t = true) (hh : restoreIfFocused t win = .ok t') :
+    wfB t' = true := by
+  unfold restoreIfFocused at hh
+  simp only [bind_ok] at hh
+  obtain ⟨w, _, hh⟩ := hh
+  split at hh
+  · unfold requestRestoreOf at hh
+    simp only [bind_ok, pure_ok] at hh
+    obtain ⟨_, _, hh⟩ := hh
+    subst hh; exact wfB_root_only h _
+  · simp only [pure_ok] at hh; subst hh; exact h
+
+theorem cursor_setter_wf {t t' : Tree} {win : Nat} (f : Cursor → Cursor) (h : wfB t = true)
+    (hh : (WinTree.modify t win (fun w => { w with cursor := f w.cursor }) >>= fun t1 => restoreIfFocused t1 win) = .ok t') :
+    wfB t' = true := by
+  simp only [bind_ok] at hh
+  obtain ⟨t1, hm, hr⟩ := hh
+  unfold WinTree.modify at hm
+  simp only [bind_ok, pure_ok] at hm
+  obtain ⟨w, hg, ht1⟩ := hm
+  subst ht1
+  exact restoreIfFocused_wf (wfB_set_same (w' := { w with cursor := f w.cursor }) h (get_ok.mp hg).1 rfl rfl rfl) hr
+
+theorem notify_wf {t t' : Tree} {win : Nat} {v : Int} (h : wfB t = true) (hh : setFocusChildNotify t win v = .ok t') :
+    wfB t' = true := by
+  unfold setFocusChildNotify WinTree.modify at hh
+  simp only [bind_ok, pure_ok] at hh
+  obtain ⟨w, hg, ht1⟩ := hh
+  subst ht1
+  exact wfB_set_same (w' := { w with focusChildNotify := bit1 v }) h (get_ok.mp hg).1 rfl rfl rfl
+
+theorem takeFocus_wf {fx : Fixes} {t : Tree} {win : Nat} {r : Tree × List Event} (h : wfB t = true)
+    (hh : takeFocus fx t win = .ok r) : wfB r.1 = true :=
+  focusGained_wf fx _ _ _ _ _ h hh (fun c hc => by cases hc)
+
+
+/-! ### restacking preserves the invariant -/
+
+theorem listRaise_mem : ∀ (cs : List Nat) (w : Nat) (cs' : List Nat), listRaise cs w = .ok cs' →
+    ∀ z, z ∈ cs' ↔ z ∈ cs := by
+  intro cs
+  induction cs with
+  | nil => intro w cs' h; simp [listRaise] at h
+  | cons x rest ih =>
+    intro w cs' h z
+    cases rest with
+    | nil =>
+      simp only [listRaise] at h
+      split at h
+      · cases h; exact Iff.rfl
+      · cases h
+    | cons y rest' =>
+      simp only [listRaise] at h
+      split at h
+      · cases h; exact Iff.rfl
+      · split at h
+        · cases h; simp only [List.mem_cons]
+          constructor
+          · rintro (h | h | h)
+            · exact .inr (.inl h)
+            · exact .inl h
+            · exact .inr (.inr h)
+          · rintro (h | h | h)
+            · exact .inr (.inl h)
+            · exact .inl h
+            · exact .inr (.inr h)
+        · simp only [bind_ok, pure_ok] at h
+          obtain ⟨r, hr, h⟩ := h
+          subst h
+          have := ih w r hr z
+          simp only [List.mem_cons] at this ⊢
+          constructor
+          · rintro (h | h)
+            · exact .inl h
+            · exact .inr (this.mp h)
+          · rintro (h | h)
+            · exact .inl h
+            · exact .inr (this.mpr h)
+
+theorem listLower_mem : ∀ (cs : List Nat) (w : Nat) (z : Nat), z ∈ listLower cs w ↔ z ∈ cs := by
+  intro cs
+  induction cs with
+  | nil => intro w z; simp [listLower]
+  | cons x rest ih =>
+    intro w z
+    cases rest with
+    | nil => simp [listLower]
+    | cons y rest' =>
+      simp only [listLower]
+      split
+      · simp only [List.mem_cons]
+        constructor
+        · rintro (h | h | h)
+          · exact .inr (.inl h)
+          · exact .inl h
+          · exact .inr (.inr h)
+        · rintro (h | h | h)
+          · exact .inr (.inl h)
+          · exact .inl h
+          · exact .inr (.inr h)
+      · have := ih w z
+        simp only [List.mem_cons] at this ⊢
+        constructor
+        · rintro (h | h)
+          · exact .inl h
+          · exact .inr (this.mp h)
+        · rintro (h | h)
+          · exact .inl h
+          · exact .inr (this.mpr h)
+
+theorem listRemove_mem {cs : List Nat} {w : Nat} {cs' : List Nat} (h : listRemove cs w = .ok cs') :
+    w ∈ cs ∧ ∀ z, z ≠ w → (z ∈ cs' ↔ z ∈ cs) := by
+  unfold listRemove at h
+  split at h
+  · next hc =>
+    cases h
+    refine ⟨by simpa using hc, fun z hz => ?_⟩
+    exact List.mem_erase_of_ne hz
+  · cases h
+
+/-- Stores that agree on the looked-up fields up to the *order* of the children lists. -/
+def SameLinksPerm (t t' : Tree) : Prop :=
+  ∀ i : Nat, match t.wins[i]?, t'.wins[i]? with
+    | some a, some b => b.parent = a.parent ∧ b.isVisible = a.isVisible ∧ b.freed = a.freed ∧ ∀ z, z ∈ b.children ↔ z ∈ a.children
+    | none, none => True
+    | _, _ => False
+
+theorem contains_congr {a b : List Nat} (h : ∀ z, z ∈ b ↔ z ∈ a) (j : Nat) : b.contains j = a.contains j := by
+  cases ha : a.contains j <;> cases hb : b.contains j <;> simp_all
+
+theorem winOk_congr_perm {t t' : Tree} (h : SameLinksPerm t t') (j : Nat) (x : Win) : winOk t' j x = winOk t j x := by
+  unfold winOk
+  congr 1
+  · congr 1
+    · cases x.parent with
+      | none => rfl
+      | some p =>
+        simp only []
+        congr 1
+        have := h p
+        cases h1 : t.wins[p]? <;> cases h2 : t'.wins[p]? <;> simp [h1, h2] at this ⊢
+        obtain ⟨_, _, c, d⟩ := this
+        rw [c]
+        have := contains_congr d j
+        simp only [List.contains_eq_mem] at this
+        rw [this]
+    · congr 1
+      funext c
+      have := h c
+      cases h1 : t.wins[c]? <;> cases h2 : t'.wins[c]? <;> simp [h1, h2] at this ⊢
+      obtain ⟨a, _, c, _⟩ := this
+      rw [a, c]
+  · cases x.focusedChild with
+    | none => rfl
+    | some c =>
+      have := h c
+      cases h1 : t.wins[c]? <;> cases h2 : t'.wins[c]? <;> simp [h1, h2] at this ⊢
+      obtain ⟨a, b, c, _⟩ := this
+      rw [a, b, c]
+
+theorem all_congr_mem {a b : List Nat} (h : ∀ z, z ∈ b ↔ z ∈ a) (f : Nat → Bool) : b.all f = a.all f := by
+  cases ha : a.all f <;> cases hb : b.all f
+  · rfl
+  · exfalso
+    simp only [List.all_eq_true, List.all_eq_false] at ha hb
+    obtain ⟨x, hx, hfx⟩ := ha
+    exact hfx (hb x ((h x).mpr hx))
+  · exfalso
+    simp only [List.all_eq_true, List.all_eq_false] at ha hb
+    obtain ⟨x, hx, hfx⟩ := hb
+    exact hfx (ha x ((h x).mp hx))
+  · rfl
+
+/-- Reordering the children of a window preserves the invariant. -/
+theorem wfB_set_children {t : Tree} (h : wfB t = true) {p : Nat} {pw : Win} (hpw : t.wins[p]? = some pw)
+    (cs' : List Nat) (hperm : ∀ z, z ∈ cs' ↔ z ∈ pw.children) :
+    wfB (WinTree.set t p { pw with children := cs' }) = true := by
+  have hl : SameLinksPerm t (WinTree.set t p { pw with children := cs' }) := by
+    intro i
+    rw [set_lookup hpw]
+    by_cases hi : p = i
+    · subst hi; simp [hpw]; exact hperm
+    · simp only [hi, if_false]
+      cases t.wins[i]? with
+      | none => trivial
+      | some a => exact ⟨rfl, rfl, rfl, fun _ => Iff.rfl⟩
+  apply wfB_of
+  · obtain ⟨r, hr0, h1, h2, h3⟩ := wf_root' h
+    rw [set_lookup hpw]
+    by_cases hi : p = 0
+    · subst hi
+      rw [hr0] at hpw; cases hpw
+      exact ⟨{ pw with children := cs' }, by simp, h1, h2, h3⟩
+    · exact ⟨r, by simp [hi, hr0], h1, h2, h3⟩
+  · intro j x hx hf
+    rw [set_lookup hpw] at hx
+    rw [winOk_congr_perm hl]
+    by_cases hj : p = j
+    · subst hj
+      simp at hx; subst hx
+      have := wf_winOk h hpw hf
+      unfold winOk at this ⊢
+      simp only [Bool.and_eq_true] at this ⊢
+      refine ⟨⟨this.1.1, ?_⟩, this.2⟩
+      rw [all_congr_mem hperm]; exact this.1.2
+    · simp [hj] at hx
+      exact wf_winOk h hx hf
+
+/-- The four restacking requests. -/
+def _root_.Tickit.WinTree.Change.isRestack : Change → Bool
+  | .raise | .raiseFront | .lower | .lowerBack => true
+  | _ => false
+
+theorem doHierarchyChange_restack_wf {t t' : Tree} {fuel : Nat} {ch : Change} {p w : Nat} (h : wfB t = true)
+    (hch : ch.isRestack = true) (hd : doHierarchyChange t fuel ch p w = .ok t') : wfB t' = true := by
+  unfold doHierarchyChange at hd
+  simp only [bind_ok] at hd
+  obtain ⟨pw, hgp, ww, _, hd⟩ := hd
+  have hpw := (get_ok.mp hgp).1
+  have tail : ∀ (t1 : Tree), wfB t1 = true →
+      (if ww.isVisible = true then expose t1 fuel p (some ww.rect) else pure t1) = .ok t' → wfB t' = true := by
+    intro t1 h1 he
+    split at he
+    · obtain ⟨hwins, _, _⟩ := expose_frame _ _ _ _ _ he
+      rw [wfB_wins hwins]; exact h1
+    · simp only [pure_ok] at he; subst he; exact h1
+  cases ch with
+  | insertFirst => cases hch
+  | insertLast => cases hch
+  | remove => cases hch
+  | raise =>
+    simp only [bind_ok, pure_ok] at hd
+    obtain ⟨cs, hcs, t1, ht1, hd⟩ := hd
+    subst ht1
+    exact tail _ (wfB_set_children h hpw cs (listRaise_mem _ _ _ hcs)) hd
+  | raiseFront =>
+    simp only [bind_ok, pure_ok] at hd
+    obtain ⟨cs, hcs, t1, ht1, hd⟩ := hd
+    subst ht1
+    obtain ⟨hin, hmem⟩ := listRemove_mem hcs
+    refine tail _ (wfB_set_children h hpw (w :: cs) (fun z => ?_)) hd
+    by_cases hz : z = w
+    · subst hz; simp [hin]
+    · simp [hz, hmem z hz]
+  | lower =>
+    simp only [bind_ok, pure_ok] at hd
+    obtain ⟨t1, ht1, hd⟩ := hd
+    subst ht1
+    exact tail _ (wfB_set_children h hpw _ (listLower_mem _ _)) hd
+  | lowerBack =>
+    simp only [bind_ok, pure_ok] at hd
+    obtain ⟨cs, hcs, t1, ht1, hd⟩ := hd
+    subst ht1
+    obtain ⟨hin, hmem⟩ := listRemove_mem hcs
+    refine tail _ (wfB_set_children h hpw (cs ++ [w]) (fun z => ?_)) hd
+    by_cases hz : z = w
+    · subst hz; simp [hin]
+    · simp [hz, hmem z hz]
+
+theorem applyChanges_wf : ∀ (reqs : List Req) (t t' : Tree), wfB t = true →
+    (∀ r ∈ reqs, r.change.isRestack = true) → applyChanges t reqs = .ok t' → wfB t' = true := by
+  intro reqs
+  induction reqs with
+  | nil => intro t t' h _ ha; simp only [applyChanges, pure_ok] at ha; subst ha; exact h
+  | cons r rest ih =>
+    intro t t' h hq ha
+    simp only [applyChanges, bind_ok] at ha
+    obtain ⟨t1, h1, h2⟩ := ha
+    exact ih _ _ (doHierarchyChange_restack_wf h (hq r (by simp)) h1) (fun r' hr' => hq r' (by simp [hr'])) h2
+
+/-- `tickit_window_flush` preserves the invariant when the queue holds restacking requests only (which is all the
+    public API can put there). -/
+theorem flush_wf {fx : Fixes} {t : Tree} {out : FlushOut} (h : wfB t = true)
+    (hq : ∀ r ∈ t.root.changes, r.change.isRestack = true) (hf : flush fx t = .ok out) : wfB out.tree = true := by
+  unfold flush at hf
+  split at hf
+  · simp only [pure_ok] at hf; subst hf; exact h
+  · simp only [bind_ok] at hf
+    obtain ⟨t1, h1, hf⟩ := hf
+    have hwf1 := applyChanges_wf _ _ _ (wfB_root_only h _) hq h1
+    have hwf2 : wfB (flushExpose { t1 with root := { t1.root with changes := [] } }) = true := by
+      unfold flushExpose; split <;> exact hwf1
+    unfold flushRestore at hf
+    split at hf
+    · simp only [bind_ok, pure_ok] at hf
+      obtain ⟨_, _, hf⟩ := hf
+      subst hf; exact hwf2
+    · simp only [pure_ok] at hf; subst hf; exact hwf2
+
+
+theorem requestHierarchyChange_wf {t t' : Tree} {fuel : Nat} {ch : Change} {win : Nat} (h : wfB t = true)
+    (hr : requestHierarchyChange t fuel ch win = .ok t') : wfB t' = true := by
+  unfold requestHierarchyChange at hr
+  simp only [bind_ok] at hr
+  obtain ⟨w, _, hr⟩ := hr
+  split at hr
+  · simp only [pure_ok] at hr; subst hr; exact h
+  · simp only [bind_ok, pure_ok] at hr
+    obtain ⟨_, _, hr⟩ := hr
+    subst hr; exact wfB_root_only h _
+
+theorem expose_wf {t t' : Tree} {fuel win : Nat} {r : Option Rect} (h : wfB t = true)
+    (he : expose t fuel win r = .ok t') : wfB t' = true := by
+  obtain ⟨hwins, _, _⟩ := expose_frame _ _ _ _ _ he
+  rw [wfB_wins hwins]; exact h
+
+theorem setGeometry_wf {t : Tree} {win : Nat} {g : Rect} {x : Tree × Bool} (h : wfB t = true)
+    (hs : setGeometry t win g = .ok x) : wfB x.1 = true := by
+  unfold setGeometry at hs
+  simp only [bind_ok] at hs
+  obtain ⟨w, hg, hs⟩ := hs
+  split at hs
+  · simp only [pure_ok] at hs; subst hs
+    exact wfB_set_same (w' := { w with rect := g }) h (get_ok.mp hg).1 rfl rfl rfl
+  · simp only [pure_ok] at hs; subst hs; exact h
+
 end WinFocus
 end Tickit
